@@ -467,7 +467,7 @@ theorem tryDefault_of_ok {O : Oracles} {d : FieldDecl} {v : PyVal} (h : defaultO
 /-- Inside the supported region a field declaration elaborates to its documented meaning. -/
 theorem elabField_meaning' (O : Oracles) (future : Bool) (fs : FieldSp)
     (h : fieldSupported O ptm future fs = true) : elabField O ptm future fs = fieldMeaning O fs := by
-  obtain ⟨name, mode, ty, dflt, inOpt⟩ := fs
+  obtain ⟨name, mode, ty, dflt, inOpt, quoted, unres⟩ := fs
   simp only [fieldSupported, Bool.and_eq_true] at h
   obtain ⟨⟨hs, hm⟩, hd⟩ := h
   obtain ⟨o, hev, g⟩ := ev_good ty hs
@@ -569,15 +569,22 @@ theorem elabField_meaning' (O : Oracles) (future : Bool) (fs : FieldSp)
 theorem fieldMeaning_same (O : Oracles) {a b : FieldSp} (h : FieldSame a b) : fieldMeaning O a = fieldMeaning O b := by
   simp [fieldMeaning, h.dflt, h.opt, sameMeaning_denote h.ty]
 
-theorem elabFields_same (O : Oracles) (f₁ f₂ : Bool) {as bs : List FieldSp} (h : ClassSame as bs)
-    (ha : as.all (fieldSupported O ptm f₁) = true) (hb : bs.all (fieldSupported O ptm f₂) = true) :
-    elabFields O ptm f₁ as = elabFields O ptm f₂ bs := by
+/-- where string annotations are claimed to work, the scope and the quoting do not matter -/
+theorem elabFieldAt_eq (sc : Scope) (O : Oracles) (future : Bool) (fs : FieldSp) (h : stringOk sc future fs = true) :
+    elabFieldAt sc O ptm future fs = elabField O ptm future fs := by
+  simp only [stringOk, Bool.and_eq_true, Bool.not_eq_true'] at h
+  simp [elabFieldAt, h.1, h.2]
+
+theorem elabFields_same (O : Oracles) (s₁ s₂ : Scope) (f₁ f₂ : Bool) {as bs : List FieldSp} (h : ClassSame as bs)
+    (ha : as.all (fieldSupportedAt O ptm s₁ f₁) = true) (hb : bs.all (fieldSupportedAt O ptm s₂ f₂) = true) :
+    elabFields O ptm s₁ f₁ as = elabFields O ptm s₂ f₂ bs := by
   induction h with
   | nil => rfl
   | cons hab _ ih =>
-    simp only [List.all_cons, Bool.and_eq_true] at ha hb
-    simp only [elabFields, elabField_meaning' O f₁ _ ha.1, elabField_meaning' O f₂ _ hb.1,
-      fieldMeaning_same O hab, ih ha.2 hb.2, hab.name]
-
+    simp only [List.all_cons, Bool.and_eq_true, fieldSupportedAt] at ha hb
+    simp only [elabFields, elabFieldAt_eq _ O _ _ ha.1.2, elabFieldAt_eq _ O _ _ hb.1.2,
+      elabField_meaning' O f₁ _ ha.1.1, elabField_meaning' O f₂ _ hb.1.1,
+      fieldMeaning_same O hab, hab.name]
+    rw [ih (by simpa [fieldSupportedAt] using ha.2) (by simpa [fieldSupportedAt] using hb.2)]
 
 end Typedpy.Elab
